@@ -109,16 +109,15 @@ func complete(input string) bool {
 	var open []byte
 	line, openedOn := 0, 0
 
-	// delimiter accounts for one brace or bracket; it reports true when no
-	// further input can make the text complete, so that the parser has to report it
-	delimiter := func(c byte) bool {
+	// delimiter accounts for one brace or bracket
+	delimiter := func(c byte) {
 		switch c {
 		case '{', '[':
 			if len(open) == 0 {
 				openedOn = line
 			}
 			open = append(open, c)
-			return false
+			return
 		}
 		opener := byte('{')
 		if c == ']' {
@@ -128,12 +127,15 @@ func complete(input string) bool {
 			if open[i] == opener {
 				// closes it, and with it whatever was opened inside it and never closed
 				open = open[:i]
-				return false
+				return
 			}
 		}
 		// a closer without an opener: inside a construct that began on an earlier line it is left to
-		// the parser, which gets the whole construct when that closes; otherwise nothing can make up for it
-		return len(open) == 0 || openedOn == line
+		// the parser, which gets the whole construct when that closes; otherwise nothing can make up
+		// for it, and what was open on this line is beyond repair with it
+		if openedOn == line {
+			open = open[:0]
+		}
 	}
 
 	l := lexer.NewLexer(input)
@@ -161,9 +163,7 @@ func complete(input string) bool {
 				case c == ';':
 					inComment = true
 				case c == '{' || c == '}' || c == '[' || c == ']':
-					if delimiter(byte(c)) {
-						return true
-					}
+					delimiter(byte(c))
 				}
 			}
 			if inString {
@@ -175,14 +175,16 @@ func complete(input string) bool {
 			line++
 			continue
 		}
+		if l.Token.Type == token.StringLit {
+			line += strings.Count(l.Token.Value, "\n")
+			continue
+		}
 		if l.Token.Type != token.NotSticky {
 			continue
 		}
 		switch l.Token.Value {
 		case "{", "}", "[", "]":
-			if delimiter(l.Token.Value[0]) {
-				return true
-			}
+			delimiter(l.Token.Value[0])
 		}
 	}
 
